@@ -50,12 +50,14 @@ func (s Schema) usable(name string) bool {
 }
 
 // BaseSchemas are the tables of the pipeline checks. Left and right column
-// sets are disjoint except for the key names k and j.
+// sets are disjoint except for the key names k, j and Null (a case variant of a
+// built-in constant is an ordinary name).
 var BaseSchemas = map[string]Schema{
 	"T": {{Ident{Name: "id"}, TInt, false}, {Ident{Name: "k"}, TInt, false}, {Ident{Name: "j"}, TInt, false}, {Ident{Name: "ia"}, TInt, false},
-		{Ident{Name: "sa"}, TStr, false}, {Ident{Name: "ba"}, TBool, false}, {Ident{Name: "ma"}, TArr, false}, {Ident{Name: "K"}, TInt, false}, {Ident{Name: "Sa"}, TStr, false}},
+		{Ident{Name: "sa"}, TStr, false}, {Ident{Name: "ba"}, TBool, false}, {Ident{Name: "ma"}, TArr, false}, {Ident{Name: "K"}, TInt, false}, {Ident{Name: "Sa"}, TStr, false},
+		{Ident{Name: "Null"}, TInt, false}},
 	"U": {{Ident{Name: "uid"}, TInt, false}, {Ident{Name: "k"}, TInt, false}, {Ident{Name: "j"}, TInt, false}, {Ident{Name: "ub"}, TInt, false},
-		{Ident{Name: "us"}, TStr, false}},
+		{Ident{Name: "us"}, TStr, false}, {Ident{Name: "Null"}, TInt, false}},
 	"V": {{Ident{Name: "vid"}, TInt, false}, {Ident{Name: "k"}, TInt, false}, {Ident{Name: "vs"}, TStr, false}},
 }
 
@@ -686,7 +688,7 @@ func DB(rng *rand.Rand) map[string]*RTable {
 				switch {
 				case ci == 0:
 					row = append(row, val.I(int64(i+1)))
-				case c.Name.Name == "k" || c.Name.Name == "j" || c.Name.Name == "K":
+				case c.Name.Name == "k" || c.Name.Name == "j" || c.Name.Name == "K" || c.Name.Name == "Null":
 					if rng.Intn(6) == 0 {
 						row = append(row, val.NULL)
 					} else {
